@@ -21,6 +21,10 @@ COMPILERS = {"rel": "g++", "asan": "clang++", "tsan": "clang++"}
 # property table. engine "rc": a rapidcheck executable built in the `rel` flavour.
 # quick/thorough: (multiplier on each sub-check's base case count, number of parallel seeds)
 PROPS = {
+    "C05": dict(engine="rc", exe="c05", quick=(1, 6), thorough=(20, 16),
+                assumptions=["oracles are written from the parameter documentation; where it is not specific (smooth composition, Euler-angle convention, slab/fault sentinel depths) only the weaker documented part is asserted",
+                             "ridge models are checked in cartesian worlds with a ridge along x = const (distance to the ridge is then |x - x_ridge| by definition)",
+                             "slab/fault distances come from the planar construction validated by C06"]),
     "C18": dict(engine="rc", exe="c18", quick=(1, 6), thorough=(20, 16),
                 extra_builds=[("rel", ["gwb-grid"], {"VERIF_GWB_GRID": "wb/bin/gwb-grid"})],
                 assumptions=["ASCII VTU output (6 significant digits): node values are compared with 2e-5 relative tolerance at the exact lattice node; a node whose library answer changes between the printed and the exact position is skipped",
